@@ -107,6 +107,11 @@ CHECKS = {
         "Validation: for 4 range shapes per program, every statement is classified by byte position; outside statements must be byte-identical, in-range ones equal to the whole-file run, and the bytes around the affected statements unchanged.",
    design="5/C09", technique="Coq proof on the block loop + per-statement byte comparison against input and whole-file run",
    note=BASE_NOTE + "Two known classes (anonymous functions in non-visited expressions; full_moon end positions) are listed findings."),
+ "C07": dict(
+   text="Partial: the property lives mostly in the runtime. Proved: the pipeline returns success exactly for parseable text; the cost recurrences of trial formatting, including that nested return values cost at least 2^k (a listed known finding, so no polynomial bound holds). "
+        "Validated: format_code under catch_unwind with a time budget on generated programs x extreme configurations x ranges of every kind, truncations, splices, text mutations and bounded nesting families (in a child process); five listed findings are replayed by probes.",
+   design="5/C07", technique="Coq proof (pipeline shape, cost recurrences) + guarded execution with time budget and child-process probes",
+   note=BASE_NOTE + "A Gallina model cannot exhibit a Rust panic, stack overflow or wall time; those halves are exploration only."),
 }
 PENDING = {}
 def main():
